@@ -94,7 +94,13 @@ impl SocketSend for RouterSocket {
         let peer_id: PeerIdentity = message.pop_front().unwrap().try_into()?;
         match self.backend.peers.get_async(&peer_id).await {
             Some(mut peer) => {
-                peer.send_queue.send(Message::Message(message)).await?;
+                let result = peer.send_queue.send(Message::Message(message)).await;
+                drop(peer);
+                if result.is_err() {
+                    // The connection is gone: forget the peer so that nothing is routed to it again.
+                    self.backend.peer_disconnected(&peer_id);
+                }
+                result?;
                 Ok(())
             }
             None => Err(ZmqError::Other("Destination client not found by identity")),
